@@ -21,7 +21,12 @@ InitB == \E p \in Pkgs, gp \in GoPkgs, dep \in BOOLEAN, k1 \in Kinds, k2 \in Kin
            InitWith(D(p, <<S("Alpha", <<M("One", k1), M("Two", k2), M("Import", "unary")>>), S("beta_svc", <<M("Go", k2)>>)>>, gp, dep, sib))
 \* a file without services
 InitC == \E p \in Pkgs, sib \in BOOLEAN : InitWith(D(p, <<>>, "example.com/gen/t;tpb", FALSE, sib))
-MCInit == InitA \/ InitB \/ InitC
+\* services whose generated identifiers meet: the constructor of one is the interface of the other, the same Go name
+\* from two Protobuf names
+InitD == \E p \in Pkgs, k \in Kinds, pair \in {<<"Foo", "NewFoo">>, <<"NewFoo", "Foo">>, <<"X", "UnimplementedX">>, <<"foo", "Foo">>,
+                                            <<"Foo", "New_Foo">>} :
+           InitWith(D(p, <<S(pair[1], <<M("Do", k)>>), S(pair[2], <<M("Do", "unary")>>)>>, "example.com/gen/t;tpb", FALSE, FALSE))
+MCInit == InitA \/ InitB \/ InitC \/ InitD
 MCSpec == MCInit /\ [][Next]_vars
 GenSpec == MCInit /\ [][FALSE]_vars
 Emit == pc = "start" => PrintT(ToJson(sc))
